@@ -3,7 +3,7 @@
 From PV Require Import Base.Prelude Store.Base Store.BaseProofs Store.Flags Store.ModSeq
      Store.ModSeqProofs Store.Mailbox Store.MailboxProofs Store.View Store.ViewProofs
      Store.Compare Store.CompareProofs Store.Session Store.SelProofs Store.System
-     Store.SystemProofs Store.StoreExamples Wire.SeqSet.
+     Store.SystemProofs Store.StoreExamples Store.FlagsTruth Wire.SeqSet.
 
 (* _ModSequenceMapping.update/expunge: the log stays well-formed; afterwards the
    given uids have their last record at the new mod-seq (update or expunge), every
@@ -100,11 +100,25 @@ Theorem C02_no_false_expunge : forall ls me s,
 Proof. exact reachable_no_false_expunge. Qed.
 Print Assumptions C02_no_false_expunge.
 
-(* flags, client side — partial: _compare sends a FETCH for every message whose
-   synchronized flags differ from the previous snapshot unless that exact result was
-   silenced by the session's own STORE.SILENT.  That the flags a client has been told
-   therefore equal _flags_key_map at every quiescent point is checked by the
-   converge_flags monitor (correspondence), not proved. *)
+(* flags, client side.  (1) Every FETCH response written while answering a command —
+   the command's own results, the updates computed by fork(), merged or not — carries,
+   for a message that exists when the command ends, exactly the flags stored for it
+   (plus \Recent according to one recent set [rc]): a client is never told stale or
+   foreign flags. *)
+Theorem C02_fetch_tells_stored_flags : forall ls me c,
+  let sy := exec sys_empty ls in
+  ss_idle (sess_of sy me) = false ->
+  forall s1 b1, sel_of (fst (step sy (Cmd me c))) me = Some s1 ->
+  aget (sel_box s1) (sy_boxes (fst (step sy (Cmd me c)))) = Some b1 ->
+  exists rc, Forall (fetch_truthful b1 rc) (snd (step sy (Cmd me c))).
+Proof. exact reachable_fetch_truthful. Qed.
+Print Assumptions C02_fetch_tells_stored_flags.
+
+(* (2) partial: _compare sends a FETCH for every message whose synchronized flags
+   differ from the previous snapshot unless that exact result was silenced by the
+   session's own STORE.SILENT.  What is not proved is the last step: that the flags a
+   client has been told, together with its own arithmetic for silenced STOREs, equal
+   _flags_key_map at every quiescent point — checked by the converge_flags monitor. *)
 Theorem C02_flag_change_reported_partial :
   forall cached before after hide silenced recent with_uid u f,
   In (u, f) (fz_flags after) -> uf_mem (u, f) (fz_flags before) = false ->
